@@ -69,6 +69,20 @@ PROPERTIES = {
         explanation="class invariants 'flag => derived fields equal what build()/fill() computes from the current inputs' proved per public "
                     "member by symbolic execution of the real class ASTs; induction over the call sequence covers every history",
     ),
+    "C15": dict(
+        engines="AZ",
+        claim="Monkhorst-Pack and Gamma-centred generators: one row per index triple, all rows in one reciprocal cell, pairwise distinct, "
+              "inversion symmetric / containing Gamma, for ALL mesh sizes (generic index rows, index helper by contract); Cartesian conversion "
+              "satisfies k.a_i = 2 pi kappa_i for a symbolic non-symmetric 3x3 lattice; equal weights summing to one; band-path point count, "
+              "sampling non-negativity and time-reversal weight bookkeeping for symbolic Nk and segment lengths (see evidence for what is bounded).",
+        note="np.indices(...).transpose(1,2,3,0).reshape(-1,3) is an assumed contract (C-ordered list of all index triples); floats as reals; "
+             "np.round as round-half-even; in-house engines trusted (canaries on every run)",
+        modules=["contracts.c15"],
+        level="proof",
+        trusted_base=BASE_TRUST + ["in-house exact-algebra normaliser (engine A)", "z3 5.1 (NRA/LIA)"],
+        assumptions=["np.indices contract (index rows 0 <= m_c < n_c, each exactly once)", "floats as exact reals"],
+        explanation="generic-row tracing of the real mesh generators; range/injectivity obligations on the traced polynomials discharged by z3",
+    ),
 }
 
 
